@@ -141,7 +141,9 @@ var refPool = []string{"#/definitions/a", "#/definitions/b", "other.json#/defini
 	"defs.json?root=C:\\new\\table#/definitions/Pet", "defs.json?label=\",\"readOnly\":true,\"title\":\"x", "defs.json?dir=a\\u0062c#/x"}
 var schemaURLs = []string{"http://json-schema.org/draft-04/schema#", "http://json-schema.org/draft-04/schema", "http://swagger.io/v2/schema.json#"}
 var schemaTypes = []string{"string", "number", "integer", "boolean", "array", "object", "null"}
-var statusCodes = []string{"200", "201", "204", "400", "404", "500", "100", "599"}
+
+// any three digits are a legal response key for the meta-schema, not only assigned HTTP status codes
+var statusCodes = []string{"200", "201", "204", "400", "404", "500", "100", "599", "600", "999"}
 
 // "/x~1y" and "/x~0y" hold the two-character sequences literally (their pointer tokens are ~1x~01y, ~1x~00y);
 // "/x/y" and "/x~y" are what a second, wrong unescaping would turn them into
